@@ -48,6 +48,7 @@ def enum_cases(quick: bool):
             for req in REQS[:2]:
                 yield {"algorithm": algo, "rules": [shape(*s1, 0), shape(*s2, 1)]}, req, {"strict": False}
     yield from tier_cases(quick)
+    yield from coercion_cases()
     r = random.Random(3)
     for _ in range(400 if quick else 4000):
         k = r.randrange(3, 5)
@@ -80,6 +81,23 @@ def tier_cases(quick: bool):
                     yield {"algorithm": algo, "rules": rules}, req, {"strict": False}
                     if ti > 0 and n == 2:
                         yield {"algorithm": algo, "rules": [rules[0], other, rules[1]]}, req, {"strict": False}
+
+
+def coercion_cases():
+    """the type pre-filter works on str(type) while the matcher (strict mode) does not: a rule the pre-filter lets through but the
+    matcher rejects (request type 1 vs rule type "1", a type list holding a non-string) must not make its tier eligible."""
+    base = {"sid": "u", "roles": [], "sattrs": {}, "action": "read", "rid": "1", "rattrs": {"level": 1}, "ctx": {}}
+    for rt in ("1", ["doc", 7], ["1", "doc"], 1):
+        for extra in ({}, {"id": "1"}, {"attrs": {"level": 1}}, {"id": 1}, {"attrs": {"level": "1"}}):
+            for e1, e2 in (("deny", "permit"), ("permit", "deny")):
+                rules = [{"id": "spec", "effect": e1, "actions": ["read"], "resource": {"type": rt, **extra}},
+                         {"id": "wild", "effect": e2, "actions": ["*"], "resource": {"type": "*"}},
+                         {"id": "typed", "effect": e2, "actions": ["read"], "resource": {"type": "doc"}}]
+                for algo in gen.ALGOS:
+                    for qt in (1, "1", 7, "doc", "7", None, True):
+                        for strict in (False, True):
+                            for k in (2, 3):
+                                yield {"algorithm": algo, "rules": rules[:k]}, {**base, "rtype": qt}, {"strict": strict}
 
 
 def session_cases(seed: int, n: int):
